@@ -144,6 +144,11 @@ class PDFGraphicState:
         # non stroking color
         self.ncolor: Optional[Color] = None
 
+        # stroking / non stroking color space (part of the graphics state,
+        # so that q/Q save and restore them together with the colors)
+        self.scs: Optional[PDFColorSpace] = None
+        self.ncs: Optional[PDFColorSpace] = None
+
     def copy(self) -> "PDFGraphicState":
         obj = PDFGraphicState()
         obj.linewidth = self.linewidth
@@ -155,6 +160,8 @@ class PDFGraphicState:
         obj.flatness = self.flatness
         obj.scolor = self.scolor
         obj.ncolor = self.ncolor
+        obj.scs = self.scs
+        obj.ncs = self.ncs
         return obj
 
     def __repr__(self) -> str:
@@ -371,6 +378,23 @@ class PDFPageInterpreter:
     def dup(self) -> "PDFPageInterpreter":
         return self.__class__(self.rsrcmgr, self.device)
 
+    # The current color spaces live in the graphics state (saved by q, restored by Q).
+    @property
+    def scs(self) -> Optional[PDFColorSpace]:
+        return self.graphicstate.scs
+
+    @scs.setter
+    def scs(self, colorspace: Optional[PDFColorSpace]) -> None:
+        self.graphicstate.scs = colorspace
+
+    @property
+    def ncs(self) -> Optional[PDFColorSpace]:
+        return self.graphicstate.ncs
+
+    @ncs.setter
+    def ncs(self, colorspace: Optional[PDFColorSpace]) -> None:
+        self.graphicstate.ncs = colorspace
+
     def init_resources(self, resources: Dict[object, object]) -> None:
         """Prepare the fonts and XObjects listed in the Resource attribute."""
         self.resources = resources
@@ -424,8 +448,8 @@ class PDFPageInterpreter:
         # argstack: stack for command arguments.
         self.argstack: List[PDFStackT] = []
         # set some global states.
-        self.scs: Optional[PDFColorSpace] = None
-        self.ncs: Optional[PDFColorSpace] = None
+        self.scs = None
+        self.ncs = None
         if self.csmap:
             self.scs = self.ncs = next(iter(self.csmap.values()))
 
